@@ -25,6 +25,7 @@ LEVEL_TEXT = (
     " Added: empty pools as start, the search continued after a segment shorter than / equal to / longer than "
     "its own step, the search after a failed search, fast growth (k up to 50). "
     ' Also: start values a million times the steady-state scale, and searches that follow a prior segment of 5 / 100 / 250 time units.'
+    ' Also: scan.steady_state over tables that mix rows with and without a steady state under unique / repeated / string / all-equal row labels.'
 )
 LEVEL_NOTE = "trusted: numpy.linalg.solve for the analytic steady state; a *failure* reported for a network that has a steady state (e.g. relative norm with a zero-valued variable) is not counted as a violation"
 RULE = (
